@@ -1,6 +1,281 @@
 package main
 
-import "verif/mc/report"
+// C13 parts (b) and (c): chain-level isolation of speculative work and exactness of
+// historical read-only views, over histories of real block transitions incl. reorgs.
 
-func chainPart(run *report.Run)  {}
-func replayFile(run *report.Run) {}
+import (
+	"bytes"
+	"encoding/hex"
+	"fmt"
+	"strings"
+
+	"github.com/idena-network/idena-go/blockchain/types"
+	"github.com/idena-network/idena-go/common"
+	"github.com/idena-network/idena-go/core/appstate"
+	"github.com/idena-network/idena-go/crypto"
+	"github.com/idena-network/idena-go/stats/collector"
+	"verif/mc/chainmc"
+	"verif/mc/chainprop"
+	"verif/mc/replica"
+	"verif/mc/report"
+	"verif/mc/world"
+)
+
+func opsOf(aux map[string]string) []string {
+	if aux["ops"] == "" {
+		return nil
+	}
+	return strings.Split(aux["ops"], ";")
+}
+
+// viewFingerprint evaluates the getters of a state view for every actor address.
+func viewFingerprint(a *appstate.AppState) string {
+	var sb strings.Builder
+	st := a.State
+	fmt.Fprintf(&sb, "epoch=%d period=%d nvt=%d fee=%v god=%x|", st.Epoch(), st.ValidationPeriod(), st.NextValidationTime().Unix(), st.FeePerGas(), st.GodAddress().Bytes()[:4])
+	for i := 0; i <= world.NEW2; i++ {
+		ad := world.A(i)
+		id := st.GetIdentity(ad)
+		fmt.Fprintf(&sb, "%d:b=%v s=%v n=%d e=%d st=%d inv=%d fl=%d del=%v pen=%v val=%v onl=%v;", i, st.GetBalance(ad), st.GetStakeBalance(ad), st.GetNonce(ad), st.GetEpoch(ad),
+			id.State, id.Invites, len(id.Flips), id.Delegatee(), st.GetPenaltySeconds(ad), a.IdentityState.IsValidated(ad), a.IdentityState.IsOnline(ad))
+	}
+	if a.ValidatorsCache != nil {
+		fmt.Fprintf(&sb, "|net=%d online=%d", a.ValidatorsCache.NetworkSize(), a.ValidatorsCache.OnlineSize())
+	}
+	return crypto.Keccak256Hash([]byte(sb.String())).Hex()[:18]
+}
+
+func canon(r *replica.Replica) string {
+	img := world.SharedImage(replica.Snapshot(r.DB))
+	return fmt.Sprintf("img=%x root=%x idroot=%x v=%d idv=%d head=%x", img.Hash().Bytes()[:8], r.App.State.Root().Bytes()[:8], r.App.IdentityState.Root().Bytes()[:8],
+		r.App.State.Version(), r.App.IdentityState.Version(), r.Chain.Head.Hash().Bytes()[:8])
+}
+
+func chainModel(thorough bool) *chainprop.Model {
+	m := &chainprop.Model{Menu: world.Menu()}
+	m.Std()
+	m.Scn, m.Opts, m.Prefix = m.Scn[1:], m.Opts[1:], m.Prefix[1:]
+	add := func(names ...string) { m.Acts = append(m.Acts, m.Drive(names...)) }
+	add()
+	add("send X1->X2 1", "online V1")
+	add("kill V2", "send X2->X1 all")
+	add("delegate D1->P", "burn X1 5 key=k")
+	add("invite G->NEW", "replenish X1->V1 10")
+	m.Acts = append(m.Acts,
+		chainprop.Action{Name: "empty-block", Empty: true, Expand: true},
+		chainprop.Action{Name: "run-ceremony-to-epoch-end", Macro: "epoch", Expand: true},
+	)
+	for _, n := range []int{1, 2} {
+		for _, alt := range []string{"E", "P", "PE"} {
+			n, alt := n, alt
+			m.Acts = append(m.Acts, chainprop.Action{Name: fmt.Sprintf("reorg drop=%d continue=%s", n, alt), Expand: true, Custom: func(t *chainprop.Trans) bool {
+				head := t.A.Chain.Head.Height()
+				if head < uint64(n)+2 || len(opsOf(t.St.Aux)) < n {
+					return false
+				}
+				target := head - uint64(n)
+				if _, err := t.A.Chain.ResetTo(target); err != nil {
+					return false
+				}
+				for k := range t.NextAux {
+					var h uint64
+					if _, err := fmt.Sscanf(k, "rec:%d", &h); err == nil && h > target {
+						delete(t.NextAux, k)
+					}
+				}
+				ops := t.St.Aux["ops"] + fmt.Sprintf(";R:%d", target)
+				now := t.A.Chain.Head.Time()
+				for i := 0; i < len(alt); i++ {
+					now += 21
+					var blk *types.Block
+					if alt[i] == 'E' {
+						blk = t.A.Empty()
+					} else {
+						r, err := world.Open(t.Opts, replica.Snapshot(t.A.DB), now)
+						if err != nil {
+							return false
+						}
+						t.A = r
+						blk = t.A.Propose(now)
+					}
+					if err := t.A.Add(blk); err != nil {
+						return false
+					}
+					bb, _ := blk.ToBytes()
+					ops += ";B:" + hex.EncodeToString(bb)
+					t.NextAux[fmt.Sprintf("rec:%d", blk.Height())] = viewFingerprint(t.A.App)
+				}
+				if now > t.Now {
+					t.Now = now
+				}
+				t.NextAux["ops"] = ops
+				t.NextAux["keyx"] = fmt.Sprintf(" reorged-at=%d", target)
+				if t.C.Check {
+					t.C.Count("reorg_transitions", 1)
+					return historical(t)
+				}
+				return true
+			}})
+		}
+	}
+	m.H.Always = true
+	// (b) speculative work must not change the canonical state
+	m.H.Proposed = func(t *chainprop.Trans) bool {
+		c, A := t.C, t.A
+		before := canon(A)
+		spec := func(name string, f func()) bool {
+			f()
+			c.Count("speculative_calls", 1)
+			if after := canon(A); after != before {
+				c.Violation("speculative-call-changes-canonical:"+name, fmt.Sprintf("%s changed the canonical state/database: %s -> %s", name, before, after), nil)
+				return false
+			}
+			return true
+		}
+		h := A.Chain.Head.Height()
+		ok := spec("ProposeBlock", func() { A.Chain.ProposeBlock([]byte{}) }) &&
+			spec("ValidateBlock(good)", func() { A.Chain.ValidateBlock(t.Block, nil, collector.NewStatsCollector()) }) &&
+			spec("ValidateBlock(tampered root)", func() {
+				if t.Block.Header.ProposedHeader != nil {
+					cp := *t.Block.Header.ProposedHeader
+					cp.Root = common.Hash{7}
+					A.Chain.ValidateBlock(&types.Block{Header: &types.Header{ProposedHeader: &cp}, Body: t.Block.Body}, nil, collector.NewStatsCollector())
+				}
+			}) &&
+			spec("ForCheck+writes", func() {
+				if cs, err := A.App.ForCheck(h); err == nil {
+					cs.State.SetBalance(world.A(world.X1), replica.Dna(123456))
+					cs.IdentityState.SetValidated(world.A(world.Z), true)
+					cs.Commit(nil)
+				}
+			}) &&
+			spec("ForCheckWithOverwrite+commit", func() {
+				if cs, err := A.App.ForCheckWithOverwrite(h); err == nil {
+					cs.State.SetBalance(world.A(world.X2), replica.Dna(7))
+					cs.Commit(nil)
+				}
+				if h > 2 {
+					if cs, err := A.App.ForCheckWithOverwrite(h - 1); err == nil {
+						cs.State.SetBalance(world.A(world.X2), replica.Dna(8))
+						cs.Commit(nil)
+					}
+				}
+			}) &&
+			spec("Readonly+reads", func() {
+				if ro, err := A.App.Readonly(h); err == nil {
+					viewFingerprint(ro)
+				}
+			}) &&
+			spec("ValidateSubChain(refused)", func() {
+				if h > 2 {
+					A.Chain.ValidateSubChain(h-1, []types.BlockBundle{{Block: t.Block, Cert: nil}})
+				}
+			}) &&
+			spec("WriteSnapshot2", func() { A.App.State.WriteSnapshot2(h, &bytes.Buffer{}) })
+		return ok
+	}
+	m.H.Inserted = func(t *chainprop.Trans) bool {
+		bb, _ := t.Block.ToBytes()
+		if t.St.Aux["ops"] == "" {
+			t.NextAux["ops"] = "B:" + hex.EncodeToString(bb)
+		} else {
+			t.NextAux["ops"] = t.St.Aux["ops"] + ";B:" + hex.EncodeToString(bb)
+		}
+		// (c) record what was committed at this height
+		t.NextAux[fmt.Sprintf("rec:%d", t.Block.Height())] = viewFingerprint(t.A.App)
+		if !t.C.Check {
+			return true
+		}
+		return historical(t)
+	}
+	return m
+}
+
+// historical: every retained height's read-only view must return what was recorded at commit time,
+// on the restarted replica and on a never-restarted replica that used Readonly(head) all along.
+func historical(t *chainprop.Trans) bool {
+	c := t.C
+	o := t.Opts
+	o.Ipfs = world.Net
+	o.KeyIdx = world.X2
+	replica.SetTime(world.T0)
+	L, err := replica.New(o, replica.Image(nil).NewDB())
+	if err != nil {
+		panic(err)
+	}
+	for _, op := range opsOf(t.NextAux) {
+		if op[0] == 'R' {
+			var h uint64
+			fmt.Sscan(op[2:], &h)
+			if _, err := L.Chain.ResetTo(h); err != nil {
+				c.Violation("history-replay-rejected", err.Error(), nil)
+				return false
+			}
+		} else {
+			b, _ := hex.DecodeString(op[2:])
+			blk := new(types.Block)
+			blk.FromBytes(b)
+			if err := L.Add(blk); err != nil {
+				c.Violation("history-replay-rejected", fmt.Sprintf("block %d: %v", blk.Height(), err), nil)
+				return false
+			}
+		}
+		// the node's services (key pool, ceremony, RPC) constantly ask for the head's read-only view
+		if ro, err := L.App.Readonly(L.Chain.Head.Height()); err == nil {
+			ro.State.GetBalance(world.A(world.X1))
+		}
+	}
+	for _, node := range []struct {
+		name string
+		r    *replica.Replica
+	}{{"restarted", t.A}, {"never-restarted", L}} {
+		head := node.r.Chain.Head.Height()
+		for h := uint64(2); h <= head; h++ {
+			want, ok := t.NextAux[fmt.Sprintf("rec:%d", h)]
+			if !ok {
+				continue
+			}
+			ro, err := node.r.App.Readonly(h)
+			if err != nil {
+				c.Violation("retained-height-unreadable", fmt.Sprintf("%s node: Readonly(%d) fails below head %d: %v", node.name, h, head, err), nil)
+				return false
+			}
+			c.Count("historical_views_compared", 1)
+			if got := viewFingerprint(ro); got != want {
+				c.Violation("historical-view-differs:"+node.name, fmt.Sprintf("%s node: Readonly(%d) returns values that differ from what was committed at that height (head %d)", node.name, h, head), nil)
+				return false
+			}
+		}
+	}
+	c.Outcome(fmt.Sprintf("height=%d reorged=%v", t.A.Chain.Head.Height(), strings.Contains(t.NextAux["ops"], "R:")))
+	return true
+}
+
+func chainPart(run *report.Run) {
+	m := chainModel(run.Thorough())
+	depth := 4
+	if run.Thorough() {
+		depth = 5
+	}
+	// (a) owns states/transitions; keep its numbers and add the chain part under its own keys
+	aStates, aTrans := run.Get("states"), run.Get("transitions")
+	run.Set("states", 0)
+	run.Set("transitions", 0)
+	chainmc.Explore(run, m, chainmc.Config{Depth: depth, Chunk: 3})
+	run.Set("chain_states", run.Get("states"))
+	run.Set("chain_transitions", run.Get("transitions"))
+	run.Set("states", aStates+run.Get("chain_states"))
+	run.Set("transitions", aTrans+run.Get("chain_transitions"))
+	run.Set("traces_validated_against_impl", run.Get("transitions"))
+}
+
+func replayFile(run *report.Run) {
+	b, _ := readAll(run.Replay)
+	if bytes.Contains(b, []byte(`"part": "a"`)) {
+		fmt.Println("part (a) replay: re-run ./check C13 (the search is deterministic and complete; it stops at the same first counterexample)")
+		checkBacked(run)
+		run.Finish("model_checking", "replay of part (a)")
+		return
+	}
+	chainmc.ReplayFile(run, chainModel(run.Thorough()))
+}
